@@ -53,6 +53,9 @@ CHECKS = {
  "C03": dict(cat="exploration", technique="reclaim guard (runtime monitor) on every Node CR write and every cloud unassign/detach/delete against the kubelet simulator's ground truth and the stored NodeRuntime; NodeRuntime write observer; step-counted bounded progress; race detector",
      text="Same closed loop as C02 with deletion choreographies drawn per pod (graceful, forced, DEL never, stale DEL replays, sandbox restarts), lost/failing/first-ever NodeRuntime writes, agent GC rounds with failing pod reads and aged runtime records, pool GC pressure, controller restarts. Each write that unbinds, re-binds, marks Deleting or drops a bound address and each cloud release call is judged against (pod exists | sandbox live | teardown not reported); each newly reported teardown against the DELs the agent processed or the pods it verified gone; a pod that is gone, torn down and reported must have its addresses free within 10 reconciles.",
      note="Bounded progress = 10 reconciles after faults stop. Reclaims that follow an out-of-band cloud removal of the pod's address are counted, not judged. Two known findings (podUID-less legacy entries) are listed in known_findings.json.", ref="§2 C03"),
+ "C08": dict(cat="exploration", technique="call-time quota guard + fixed-point oracle (runtime monitors) over closed-loop IPAM histories on the real multi-ip ReconcileNode: record==cloud agreement after forced full sync, leak detection, eligible-pod and pool-band judgement; complete single-fault enumeration of a scripted scenario (every cloud-call position x 7 fault kinds, every Node-record write position x {conflict, lost}); race detector",
+     text="Every CreateNetworkInterface / Assign* is judged at call time against interface slots and per-interface limits. After each history faults stop, pending teardowns complete, the vSwitch cache expires, a full sync is forced and the controller must reach within 40 reconciles two consecutive rounds without cloud mutation or record change; at that fixed point the record must equal the cloud (interfaces, addresses, no Deleting leftovers), nothing the controller created may be outside the record, every eligible pod is bound in every enabled family, and idle addresses lie in [min,max] wherever limits leave room. A scripted arrival/departure scenario is replayed with one fault at every position of its cloud-call and record-write sequences.",
+     note="Cloud simulated above the SDK retries; a create that fails after its effect without returning the id is not counted as a leak. Capacity is computed independently of getEniOptions. Pods that report a vanished address or hold one family while waiting for the other are counted, not judged. One known finding (dual-stack pool oscillation with an unpaired idle primary) in known_findings.json.", ref="§2 C08"),
  "C19": dict(cat="exploration", technique="differential runtime oracle: independent arithmetic on generated instance-type vectors vs the real limit provider -> checkInstance/getPoolConfig and controller ReconcileNode -> daemon-side nodeReconcile -> controller (annotations, allocatable) on the simulated API server",
      text="Instance-type vectors and configurations are generated; the real LimitProviders[ecs] (GetLimit over a simulated DescribeInstanceTypes, and GetLimitFromAnno), daemon checkInstance/getPoolConfig, controller node.ReconcileNode and the daemon-side Node-CR reconciler are run in their production order; every advertised number (MaxENI, per-ENI addresses, capacity, watermarks, member ENIs, RDMA capacity, flavor counts, max-available-ip, allocatable eni/member-eni) is compared with the independently computed instance limits, and features the type lacks must be reported disabled.",
      note="Default ratio 1 / shift 0, non-negative sizes. The daemon-side ERDMA flavor is not exercised (enabling it starts the kubelet device plugin, which exits the process in this sandbox).", ref="§2 C19"),
